@@ -82,7 +82,8 @@ def zone_rec(gen, r):
                     turbo_support=True, setpoint_raw=r["sp"], sensor=r["sensor"], temp_raw=r["temp_raw"] if r["sensor"] else None,
                     spill=r["spill"])
     return dict(number=r["number"], power=r["power"], method=r["method"], percent=r["percent"],
-                setpoint_raw=(r["sp"] * 10 - 100) if r["sensor"] else None, sensor=r["sensor"],
+                # without a sensor the AT5 record either carries 0xFF or still carries a set-point byte ("sp_stale")
+                setpoint_raw=(r["sp"] * 10 - 100) if (r["sensor"] or r.get("sp_stale")) else None, sensor=r["sensor"],
                 temp_raw=r["temp_raw"] if r["sensor"] else None, spill=r["spill"], low_battery=r["low_battery"])
 
 
@@ -98,7 +99,7 @@ def _zone_common(n):
     return st.fixed_dictionaries({
         "number": st.just(n), "power": st.sampled_from(["off", "on", "turbo"]), "method": st.sampled_from(["damper", "temperature"]),
         "percent": st.integers(0, 100), "low_battery": st.booleans(), "sp": st.integers(10, 35), "sensor": st.booleans(),
-        "temp_raw": st.integers(0, 200).map(lambda v: v * 10), "spill": st.booleans()})
+        "temp_raw": st.integers(0, 200).map(lambda v: v * 10), "spill": st.booleans(), "sp_stale": st.booleans()})
 
 
 @st.composite
@@ -199,6 +200,12 @@ def run_history(case, stats: Stats | None):
             for n in z4:
                 for k in z4[n]:
                     if k in DIFF_ATTRS:
+                        continue
+                    r5 = sides[5][0].state["zones"][str(n)]
+                    if k == "target_temperature" and not r5["sensor"] and r5["setpoint_raw"] is not None:
+                        # not expressible in both protocols as the library reads them: an AT4 group without sensor has
+                        # no set-point, an AT5 zone record may still carry one (each side is still checked against its
+                        # own reference model, and requests must be accepted / rejected alike)
                         continue
                     if z4[n][k] != z5[n][k]:
                         bad(f"zone-attr:{k}", f"{when}: zone {n}.{k}: AT4 {z4[n][k]!r} != AT5 {z5[n][k]!r} for equivalent consoles")
